@@ -93,6 +93,7 @@ def _worker(wid, spaces, counter, nblocks_total, order, deadline, beacon_path, c
             first = True
             case = None
             k = 0
+            last_b = time.time()
             for case in sp.cases(blk):
                 R.case = case
                 R.n += 1
@@ -101,8 +102,11 @@ def _worker(wid, spaces, counter, nblocks_total, order, deadline, beacon_path, c
                     b = crepr(case).encode()[:BEACON_SZ - 40]
                     struct.pack_into("<qqqq", bm, off, si, bi, k, len(b))
                     bm[off + 32:off + 32 + len(b)] = b
-                elif k & 1023 == 0:
-                    struct.pack_into("<q", bm, off + 16, k)
+                elif k & 15 == 0:
+                    now = time.time()
+                    if now - last_b > 0.5:       # progress beacon: a stall then means "16 cases did not finish", not "a block did not finish"
+                        last_b = now
+                        struct.pack_into("<q", bm, off + 16, k)
                 try:
                     sg = one(case, R)
                 except AssertionError:
